@@ -577,7 +577,8 @@ Definition obs_worker (pr : probes) (w : worker) : val :=
       L (map (fun p => I (w_is_available p w)) (pr_profs pr));
       vbool (w_is_full w);
       L (map (fun sm => L [I (fst sm); L (map (fun t => vbool (set_mem t (snd sm))) (pr_tasks pr))]) (w_batches w));
-      L (map (fun sb => I (fst sb)) (w_btask w)) ].
+      L (map (fun sb => I (fst sb)) (w_btask w));
+      L (map (fun ps => L [I (fst ps); vrvec (s_req (snd ps))]) (w_avail_prof w ++ w_pend_prof w)) ].
 Definition obs_pool (pr : probes) (P : pool) : val :=
   L [ L (map (obs_worker pr) (p_workers P));
       L (map (fun tw => L [I (fst tw); I (snd tw)]) (p_placed P));
@@ -598,7 +599,90 @@ Fixpoint world_observe (pr : probes) (W : world) (cs : list wcmd) : list val :=
       let '(W', code) := world_step W c in
       L [I code; L (map (obs_obj pr) (wo_objs W'))] :: world_observe pr W' cs'
   end.
+Fixpoint world_codes (W : world) (cs : list wcmd) : list Z * world :=
+  match cs with
+  | [] => ([], W)
+  | c :: cs' => let '(W', code) := world_step W c in let '(l, Wf) := world_codes W' cs' in (code :: l, Wf)
+  end.
 Definition world_case := (probes * list obj * list wcmd)%type.
+(* outcome codes of every command and the observation of the final world only *)
+Definition world_obs_last (x : world_case) : val :=
+  let '(pr, objs, cs) := x in
+  let '(codes, Wf) := world_codes (mkWorld objs 1000000) cs in
+  L [L (map I codes); L (map (obs_obj pr) (wo_objs Wf))].
 Definition world_obs (x : world_case) : val :=
   let '(pr, objs, cs) := x in
   L (L (map (obs_obj pr) objs) :: world_observe pr (mkWorld objs 1000000) cs).
+
+(* ---------------------------------------------------------------------------------------------- *)
+(* MONITORS: decidable forms of the C04 / C01 statements, applied by the harness to the
+   IMPLEMENTATION's observations (Proofs/MonitorP.v proves them equivalent to the Props). *)
+Fixpoint keys_nodupb (v : rvec) : bool :=
+  match v with
+  | [] => true
+  | (k, _) :: v' => negb (existsb (fun kq => rkey_eqb k (fst kq)) v') && keys_nodupb v'
+  end.
+Definition recs_inb (v : rvec) (a : allocs) : bool :=
+  forallb (fun cl => forallb (fun kq => existsb (fun kq' => rkey_eqb (fst kq) (fst kq')) v) (snd cl)) a.
+(* tot: the CONFIGURED totals (given by the harness, not read from the implementation);
+   av: the implementation's available cells; a: its allocation records *)
+Definition check_ledger (tot av : rvec) (a : allocs) : bool :=
+  keys_nodupb av && recs_inb av a && cells_ok av tot a.
+(* the public getters agree with the cells: per probe key (available, allocated, total, sum of
+   get_allocated_computation) *)
+Definition check_getters (tot av : rvec) (a : allocs) (g : list (rkey * (Z * Z * Z * Z))) : bool :=
+  forallb (fun rg => let '(r, (x, al, t, sc)) := rg in
+                     (x =? vec_quantity av r) && (t =? vec_quantity tot r) && (al =? t - x) &&
+                     (sc =? fold_right (fun cl acc => sumP (fun k => res_match r k) (snd cl) + acc) 0 a)) g.
+
+(* residency: placed = the implementation's get_placed_tasks with the strategy of each task (a batch
+   placeholder is named by its batch strategy id), profs = loaded/pending profiles with the request of
+   their loading strategy *)
+Definition holder_ok (placed : list (Z * strategy)) (profs : list (Z * rvec)) (c : comp) : bool :=
+  match c with
+  | CTask t => match zfind t placed with Some s => negb (s_is_batch s) | None => false end
+  | CBatch sid => existsb (fun ts => s_is_batch (snd ts) && (s_id (snd ts) =? sid)) placed
+  | CProf p => zmem p profs
+  end.
+Definition name_sum (n : Z) (l : rvec) : Z := sumP (fun k => fst k =? n) l.
+Definition exact_for (names : list Z) (a : allocs) (c : comp) (req : rvec) : bool :=
+  forallb (fun n => name_sum n (al_get c a) =? name_sum n req) names.
+Definition check_held (names : list Z) (a : allocs) (placed : list (Z * strategy)) (profs : list (Z * rvec)) : bool :=
+  forallb (fun cl => holder_ok placed profs (fst cl)) a &&
+  forallb (fun ts => if s_is_batch (snd ts) then exact_for names a (CBatch (s_id (snd ts))) (s_req (snd ts))
+                     else exact_for names a (CTask (fst ts)) (s_req (snd ts))) placed &&
+  forallb (fun pr => exact_for names a (CProf (fst pr)) (snd pr)) profs.
+Definition obs_worker_of (tot : rvec) (placed : list (Z * strategy)) (profs : list (Z * rvec)) : worker :=
+  mkWorker 0 (r_new tot) placed [] [] (map (fun pr => (fst pr, mkStrat 0 false (snd pr) 1 0)) profs) [] 0.
+Definition check_demand (names : list Z) (tot : rvec) (placed : list (Z * strategy)) (profs : list (Z * rvec)) : bool :=
+  let w := obs_worker_of tot placed profs in
+  forallb (fun n => demand_name w n <=? cap_name w n) names.
+(* everything together for one worker observation *)
+Record wobs := mkWobs { wo_names : list Z; wo_tot : rvec; wo_av : rvec; wo_allocs : allocs;
+                        wo_getters : list (rkey * (Z * Z * Z * Z));
+                        wo_placed : list (Z * strategy); wo_profs : list (Z * rvec) }.
+Definition check_wobs (o : wobs) : bool :=
+  check_ledger (wo_tot o) (wo_av o) (wo_allocs o) &&
+  check_getters (wo_tot o) (wo_av o) (wo_allocs o) (wo_getters o) &&
+  check_held (wo_names o) (wo_allocs o) (wo_placed o) (wo_profs o) &&
+  check_demand (wo_names o) (wo_tot o) (wo_placed o) (wo_profs o).
+(* nothing resident => full capacity *)
+Definition check_full (tot av : rvec) (a : allocs) : bool :=
+  match a with [] => true | _ => false end &&
+  (fix eqv (x y : rvec) : bool :=
+     match x, y with
+     | [], [] => true
+     | (k, q) :: x', (k', q') :: y' => rkey_eqb k k' && (q =? q') && eqv x' y'
+     | _, _ => false
+     end) av tot.
+(* two observations are the same value (refusal changes nothing / copy has the same getters /
+   an operation on one object does not change another) *)
+Definition check_same (p : val * val) : bool := val_eqb (fst p) (snd p).
+(* the pool's task map and its workers' placed tasks agree; a task is on at most one worker *)
+Definition check_pool_placed (pp : list (Z * Z)) (wp : list (Z * list Z)) : bool :=
+  forallb (fun tw => match zfind (snd tw) wp with Some l => set_mem (fst tw) l | None => false end) pp &&
+  forallb (fun wl => forallb (fun t => match zfind t pp with Some w => w =? fst wl | None => false end) (snd wl)) wp.
+Definition check_full_all (x : rvec * rvec * allocs) : bool :=
+  let '(tot, av, a) := x in check_full tot av (filter (fun cl => match snd cl with [] => false | _ => true end) a).
+Definition check_res_obs (x : rvec * rvec * allocs * list (rkey * (Z * Z * Z * Z))) : bool :=
+  let '(tot, av, a, g) := x in check_ledger tot av a && check_getters tot av a g.
